@@ -42,3 +42,33 @@ Example C03_example :
                                 [0; 0; 0; 0; 0; 0; 0; 0; 0; 0; 0; 1; 1; 1; 0; 0; 0; 1; 1; 1; 1; 1; 1; 1; 1; 0; 0; 0; 0; 0; 0; 0] in
   fin = [2; 3] /\ existsb (fun a => match a with LaRes 1 false => true | _ => false end) tr = true.
 Proof. vm_compute. split; reflexivity. Qed.
+
+(* Lock scopes read off the headers (tie A, tools/leaves/locks.py): for every member function, the
+   accesses to the shared structure made OUTSIDE the scope of a named guard on its mutex.
+   What is listed is, entry by entry:
+   * constructor / operator= / swap / cloneFrom / doFreeAllNodes: construction, assignment, swap and
+     destruction of a whole list or dispatcher — not among the operations C03 names (an object must
+     not be assigned or destroyed while other threads use it);
+   * doAppend / doInsert / doFreeNode: the private link helpers; they are entered with the caller's
+     lock held — the last three lists say that NO call to them is outside a guard;
+   * empty#1: `empty()` reads `head` without the mutex (a single shared_ptr read; a racy answer is
+     allowed by the sequential-execution reading only in that it is the answer of SOME instant —
+     recorded here as it is in the header).
+   Every lookup in the dispatcher's map (dispatch, removeListener, hasAnyListener, ownsHandle,
+   forEach) and every registration is inside a guard: none of them appears. *)
+From Coq Require Import String.
+From EV.gen Require GenLocks.
+Local Open Scope string_scope.
+
+Theorem C03_lock_scopes_are_the_reviewed_ones :
+  GenLocks.dispatcher_map_unguarded = ["constructor#2"; "operator=#4"; "swap#2"] /\
+  GenLocks.heter_dispatcher_map_unguarded = ["constructor#2"; "operator=#4"; "swap#2"] /\
+  GenLocks.list_head_unguarded = ["cloneFrom#1"; "constructor#1"; "doAppend#2"; "doFreeAllNodes#2"; "doFreeNode#2"; "doInsert#2"; "empty#1"; "operator=#2"; "swap#2"] /\
+  GenLocks.list_tail_unguarded = ["cloneFrom#1"; "doAppend#4"; "doFreeNode#2"; "operator=#2"; "swap#2"] /\
+  GenLocks.list_next_unguarded = ["cloneFrom#2"; "doAppend#1"; "doFreeAllNodes#2"; "doFreeNode#5"; "doInsert#2"] /\
+  GenLocks.list_previous_unguarded = ["cloneFrom#1"; "doAppend#1"; "doFreeAllNodes#1"; "doFreeNode#5"; "doInsert#5"] /\
+  GenLocks.list_doappend_calls_unguarded = [] /\
+  GenLocks.list_doinsert_calls_unguarded = [] /\
+  GenLocks.list_dofreenode_calls_unguarded = [].
+Proof. repeat split; reflexivity. Qed.
+Print Assumptions C03_lock_scopes_are_the_reviewed_ones.
